@@ -322,6 +322,7 @@ double Integrate_MC_Vegas(std::function<double(std::vector<double>&, const doubl
 	std::mt19937 PRNG(rd());
 
 	int ndim = region.size() / 2;
+	std::vector<double> point(ndim);   // the argument handed to the integrand: the ndim coordinates of the sample, nothing else
 	if(init <= 0)
 	{
 		mds = ndo = 1;
@@ -419,10 +420,11 @@ double Integrate_MC_Vegas(std::function<double(std::vector<double>&, const doubl
 						xo = xi[j][ia[j] - 1];
 						rc = (xn - ia[j]) * xo;
 					}
-					x[j] = region[j] + rc * dx[j];
+					x[j]	 = region[j] + rc * dx[j];
+					point[j] = x[j];
 					wgt *= xo * xnd;
 				}
-				f  = wgt * func(x, wgt);
+				f  = wgt * func(point, wgt);
 				f2 = f * f;
 				fb += f;
 				f2b += f2;
